@@ -3,9 +3,11 @@ package vrt
 import (
 	"fmt"
 	"reflect"
+	"runtime"
 	"runtime/debug"
 	"strings"
 	"sync"
+	"sync/atomic"
 	"time"
 )
 
@@ -45,6 +47,18 @@ type thread struct {
 	op   *pend
 	done bool
 	vc   []int
+	goid int64 // the goroutine that is this thread
+}
+
+// curGoid: the id of the calling goroutine ("goroutine 123 [running]:" is how every stack dump starts).
+func curGoid() int64 {
+	var buf [40]byte
+	n := runtime.Stack(buf[:], false)
+	var id int64
+	for i := len("goroutine "); i < n && buf[i] >= '0' && buf[i] <= '9'; i++ {
+		id = id*10 + int64(buf[i]-'0')
+	}
+	return id
 }
 
 type chanShadow struct {
@@ -63,8 +77,8 @@ type lockShadow struct {
 	held    bool
 	readers int   // sync.RWMutex: number of read locks held
 	rvc     []int // join of the clocks of the read-unlocks since the last write lock
-	id   int
-	vc   []int
+	id      int
+	vc      []int
 }
 
 type wgShadow struct {
@@ -97,7 +111,25 @@ func newSched() *schedT {
 		quiesce: make(chan struct{}), shadow: map[uintptr]*varShadow{}}
 }
 
-func schedOn() bool { return active.Load() && opts.Sched && s != nil && s.cur != nil }
+// schedOn: the caller is the running thread of a controlled execution.  A goroutine that is not a thread of the
+// current execution - left over from an aborted execution, or started by library code while no execution was under
+// way and still running - is answered false: for it every hook is the plain operation.
+func schedOn() bool {
+	if !(active.Load() && opts.Sched && s != nil) {
+		return false
+	}
+	cur := s.cur
+	if cur == nil {
+		return false
+	}
+	// the identity of the caller is only looked up (a stack header: microseconds) while goroutines exist that
+	// the library started outside a controlled execution, or during the abort of one
+	return foreign.Load() == 0 || cur.goid == curGoid()
+}
+
+// foreign counts the live goroutines started through Go while no execution was under way (or while one
+// was being aborted).
+var foreign atomic.Int64
 
 func (sc *schedT) newThread(parent *thread) *thread {
 	t := &thread{id: len(sc.threads), wake: make(chan bool, 1)}
@@ -313,6 +345,7 @@ func Run(root func()) (rec any) {
 	}
 	sc := s
 	me := sc.newThread(nil)
+	me.goid = curGoid()
 	sc.cur = me
 	func() {
 		defer func() { rec = filterPanic(recover()) }()
@@ -357,7 +390,11 @@ func filterPanic(r any) any {
 // Go replaces the go statement.
 func Go(f func()) {
 	if !schedOn() || s.aborting {
-		go f()
+		foreign.Add(1)
+		go func() {
+			defer foreign.Add(-1)
+			f()
+		}()
 		return
 	}
 	sc := s
@@ -367,6 +404,7 @@ func Go(f func()) {
 	sc.zombies.Add(1)
 	go func() {
 		defer sc.zombies.Done()
+		t.goid = curGoid()
 		if ok := <-t.wake; !ok {
 			return
 		}
